@@ -29,4 +29,13 @@ theorem cmpNat_cases (ar ah br bh : Nat) :
     · simp [h1, h2]
     · simp [h1, h2]; omega
 
+theorem Height.gte_iff (a b : Height) :
+    Height.gte a b = true ↔ a.rev.toNat > b.rev.toNat ∨ (a.rev.toNat = b.rev.toNat ∧ a.h.toNat ≥ b.h.toNat) := by
+  simp only [Height.gte, Height.compare_toNat, decide_eq_true_eq]
+  rcases cmpNat_cases a.rev.toNat a.h.toNat b.rev.toNat b.h.toNat with ⟨e, c⟩ | ⟨e, c⟩ | ⟨e, c⟩ <;>
+    rw [e] <;> constructor <;> intro hx <;> omega
+
+theorem Height.isZero_iff (a : Height) : Height.isZero a = true ↔ a.rev.toNat = 0 ∧ a.h.toNat = 0 := by
+  simp [Height.isZero, ← UInt64.toNat_inj]
+
 end IbcVerif
